@@ -17,6 +17,8 @@ import (
 	"pgregory.net/rapid"
 
 	"github.com/algorand/go-algorand/data/basics"
+	"github.com/algorand/go-algorand/data/transactions"
+	"github.com/algorand/go-algorand/data/txntest"
 	"github.com/algorand/go-algorand/ledger/ledgercore"
 	"github.com/algorand/go-algorand/protocol"
 )
@@ -658,4 +660,75 @@ func TestVerif_C08_Metamorphic(t *testing.T) {
 	vk := vkBegin(t, "C08")
 	vk.Rule(c08Rule + " Metamorphic unit: a second ledger with its own drawn configuration and schedule is fed the same blocks through AddBlock; both must answer identically and equal the model.")
 	rapid.Check(t, func(rt *rapid.T) { c08Run(t, rt, vk, engcOpts{Shadow: true}) })
+}
+
+// TestVerif_C08_KnownMax0 reproduces, on a hand-made history, the class excluded by construction from the units above:
+// Ledger.LookupKeysByPrefix(round, prefix, maxKeyNum = 0). ledger.go documents "if maxKeyNum == 0 it loads all keys",
+// but the sqlite reader tests `resultCount == maxKeyNum` before scanning the first row, so with no matching key in
+// the in-memory deltas it returns DB round 0 (=> StaleDatabaseRoundError when dbRound > 0) and never reads the keys.
+// The only production caller passes math.MaxUint64. Reported through vk.Known when the finding is listed in
+// KNOWN_FINDINGS.txt; until then it is only counted as excluded (the unit never fails on this).
+func TestVerif_C08_KnownMax0(t *testing.T) {
+	vk := vkBegin(t, "C08")
+	vk.Rule("hand-made history: create an app, fund it, create one box, add empty blocks until the box is only in the tracker DB, commit; then ask LookupKeysByPrefix(latest, boxPrefix, 0). " +
+		"Non-trivial: the box key is on disk and absent from the in-memory deltas. Distinct: by world configuration.")
+	rapid.Check(t, func(rt *rapid.T) {
+		w := engcNewWorld(t, rt, engcOpts{Label: vk.Label, Profile: "pay"})
+		defer w.Close()
+		tip := w.Model.Tip()
+		creator := w.Users[0]
+		for _, u := range w.Users {
+			if tip.Acct(u).Data.MicroAlgos.Raw > tip.Acct(creator).Data.MicroAlgos.Raw {
+				creator = u
+			}
+		}
+		a, _, cl := engcPrograms()
+		step := func(kind string, tx *txntest.Txn) {
+			b := w.BeginBlock(rt)
+			if err := b.Submit([]string{kind}, tx); err != nil {
+				rt.Skipf("setup transaction %s rejected: %v", kind, err)
+			}
+			b.Finish(rt)
+		}
+		step("app-create", &txntest.Txn{Type: protocol.ApplicationCallTx, Sender: creator, ApprovalProgram: a, ClearStateProgram: cl,
+			GlobalStateSchema: basics.StateSchema{NumByteSlice: 1}})
+		ids := w.Model.Tip().CreatableIDs(basics.AppCreatable)
+		if len(ids) != 1 {
+			rt.Fatalf("ENGINE: expected one app, have %v", ids)
+		}
+		app := basics.AppIndex(ids[0])
+		step("app-fund", &txntest.Txn{Type: protocol.PaymentTx, Sender: creator, Receiver: app.Address(), Amount: 1_000_000})
+		step("app-call", &txntest.Txn{Type: protocol.ApplicationCallTx, Sender: creator, ApplicationID: app,
+			ApplicationArgs: [][]byte{[]byte("bcreate"), []byte("x"), engcItob(8)}, Boxes: []transactions.BoxRef{{Index: 0, Name: []byte("x")}}})
+		boxRound := w.Model.Latest()
+		for i := uint64(0); i < w.Node.Cfg.MaxAcctLookback+2; i++ {
+			w.StepBlock(rt, 0)
+		}
+		w.Node.OpCommit()
+		prefix := engcBoxKey(app, "")
+		latest := w.Model.Latest()
+		onDiskOnly := w.Node.DBRound() >= boxRound
+		vk.Case(onDiskOnly, strings.Join(w.History, "|"))
+		// the supported way works
+		all, err := w.Node.L.LookupKeysByPrefix(latest, prefix, math.MaxUint64)
+		if err != nil || len(all) != 1 || all[0] != engcBoxKey(app, "x") {
+			rt.Fatalf("C08 VIOLATION: LookupKeysByPrefix(%d, boxes of app %d, MaxUint64) = %q, %v; want the one box \"x\"", latest, app, all, err)
+		}
+		got, err := w.Node.L.LookupKeysByPrefix(latest, prefix, 0)
+		if err == nil && len(got) == 1 && got[0] == all[0] {
+			vk.Label("max0:answers-correctly")
+			return
+		}
+		what := fmt.Sprintf("LookupKeysByPrefix(round %d, boxes of app %d, maxKeyNum 0) = %q, err %v; the app has box \"x\" (dbRound %d, box created in round %d)",
+			latest, app, got, err, w.Node.DBRound(), boxRound)
+		vk.Label("max0:reproduced")
+		if vkKnownListed("C08", "keysbyprefix-max0") {
+			vk.Known("keysbyprefix-max0", what, map[string]any{"history": w.History})
+		} else {
+			vk.Excluded("keysbyprefix-max0 (reproduced; finding reported but not listed in KNOWN_FINDINGS.txt)")
+		}
+		if vk.WantSample(onDiskOnly) {
+			vk.Sample(onDiskOnly, map[string]any{"history": w.History, "observed": what})
+		}
+	})
 }
